@@ -1034,7 +1034,7 @@ def _c03_judge(ctx, live, when, trigger, s, sd, td, sd0, td0):
                           f"{live.tag} screen {when}: row {i} {r[0]!r},{r[1]!r} has ids ({sid},{tids}) but the prepared "
                           f"simulation assigned ({want_s},{want_t})")
             break
-    if ctx.theta is not None and len(live.rows):
+    if ctx.theta is not None and len(live.rows) and ctx.theta.V0.shape[0] > 0 and ctx.theta.W0.shape[0] > 0:
         want_ids_s = [sd0[r[0]] for r in live.rows]
         want_ids_t = [[td0[t] for t in r[1]] for r in live.rows]
         view = ref.IdView(want_ids_s, want_ids_t)
